@@ -59,6 +59,9 @@ structure St where
   status : Nat → Nat
   bound : Nat → Bool
   edited : Nat → Bool
+  /-- a heads entry written by an old version: non-derived, heads = [id], NO common snapshot. `FillDiff`
+  keeps such entries in the advertised index although live updates never add root-only heads -/
+  legacy : Nat → Bool
   /-- the tree's changes are stored (durable) -/
   stored : Nat → Bool
   -- in memory
@@ -72,7 +75,7 @@ structure St where
 
 def St.init (n : Nat) (parent : Nat → Option Nat) : St :=
   { n := n, parent := parent, entry := fun _ => false, status := fun _ => 0, bound := fun _ => false,
-    edited := fun _ => false, stored := fun _ => false, adv := fun _ => false, mirror := fun _ => 0,
+    edited := fun _ => false, legacy := fun _ => false, stored := fun _ => false, adv := fun _ => false, mirror := fun _ => 0,
     live := fun _ => false, fetching := none, recs := [⟨[], none⟩], ss := some ⟨[], 0⟩ }
 
 /-- status as the code reads it: a missing entry reads as NotDeleted (`checkTreeDeleted`) -/
@@ -97,6 +100,7 @@ def createBase (s : St) (k : Nat) : St :=
   let st0 := if s.entry k then s.status k else 0
   { s with entry := upd s.entry k true, status := upd s.status k st0,
            bound := upd s.bound k (s.parent k).isSome, edited := upd s.edited k false,
+           legacy := upd s.legacy k false,        -- CreateStorageTx writes CommonSnapshot = root
            stored := upd s.stored k true,
            adv := fun j => if j = k ∧ st0 ≠ 0 then false else s.adv j }
 
@@ -269,7 +273,7 @@ def restartMem (s : St) : St :=
 
 /-- `DiffManager.FillDiff`: entries without a tombstone key, empty roots skipped -/
 def fillDiff (s : St) : St :=
-  { s with adv := fun k => s.entry k && s.status k == 0 && s.edited k }
+  { s with adv := fun k => s.entry k && s.status k == 0 && (s.edited k || s.legacy k) }
 
 /-- restart: memory rebuilt from the heads table in the order the space app runs its components
 (deletionstate with its orphan scan, settings object, head sync) -/
@@ -299,9 +303,31 @@ def stepDel (s : St) (k : Nat) (snap : Bool) (v : Option View) : St × Res × Re
       let (s2, res) := applyView s1 v
       (s2, res, r)
 
+/-- a legacy heads entry appears in the stored table (written by an old version / restored from an old
+backup): `UpdateEntry{Id, Heads:[id]}` on an id without entry. The observer ignores root-only heads, so the
+advertised index changes only at the next restart (`FillDiff`). -/
+def stepLegacy (s : St) (k : Nat) : St × Res :=
+  if s.entry k then (s, .exists_)
+  else ({ s with entry := upd s.entry k true, status := upd s.status k 0, bound := upd s.bound k false,
+                 edited := upd s.edited k false, legacy := upd s.legacy k true }, .ok)
+
+/-- one id of a deletion-worker pass during which every storage write transaction fails: a stored tree is
+opened by the tree manager (and stays in its cache) but its data removal fails, so the worker `continue`s —
+no status change, no children; an id without stored tree needs no write transaction and is marked Deleted -/
+def faultOne (s : St) (k : Nat) : St :=
+  if s.stored k then { s with live := upd s.live k true } else deleteOne s k
+
+def faultChildren (s : St) (p : Nat) : St :=
+  (childrenOf s p).foldl (fun s c => if 2 ≤ s.status c then s else faultOne s c) s
+
+/-- `deleter.Delete` under a storage fault (all explicit write transactions of the pass fail) -/
+def stepRunFault (s : St) : St :=
+  (queuedList s).foldl (fun s k => if s.stored k then { s with live := upd s.live k true }
+                                   else faultChildren (deleteOne s k) k) s
+
 inductive Op where
   | put (k : Nat) | fetch (k : Nat) | fstart (k : Nat) | ffin | edit (k : Nat) | head (k : Nat)
-  | run | restart (v : Option View) | crash (k : Nat) (v : Option View) | deliver (v : Option View)
+  | run | runFault | legacy (k : Nat) | restart (v : Option View) | crash (k : Nat) (v : Option View) | deliver (v : Option View)
   | del (k : Nat) (snap : Bool) (v : Option View)
   | record (r : Rec)
   deriving Repr, Inhabited
@@ -314,6 +340,8 @@ def step (s : St) : Op → St × Res
   | .edit k => stepEdit s k
   | .head k => stepHead s k
   | .run => (stepRun s, .ok)
+  | .runFault => (stepRunFault s, .ok)
+  | .legacy k => stepLegacy s k
   | .restart v => stepRestart s v
   | .crash k v => stepCrash s k v
   | .deliver v => stepDeliver s v
